@@ -100,3 +100,11 @@ Print Assumptions quadratic_q0_backward.
 Example quadratic_backward_error_nonvacuous :
   (0 <= / 1024 <= / 100)%R /\ std_model (/ 1024) (pert_ops (/ 1024)) /\ o_mul (pert_ops (/ 1024)) (RtoC 1) (RtoC 1) <> RtoC 1.
 Proof. exact pert_nonvacuous. Qed.
+(* why the theorems are stated per root: in that arithmetic, on x^2 - 1 (b = 0) the two returned values do not sum to 0, so NO
+   quadratic a' x^2 + 0 x + c' with a' <> 0 -- the only ones allowed by |db| <= k eps |b| = 0 -- has both of them as roots *)
+Example quadratic_componentwise_simultaneous_refuted_example :
+  exists r0 r1 : C, poly_solve (RoundRAo (/ 1024) (pert_ops (/ 1024))) [RtoC (-1); RtoC 0; RtoC 1] false = Ok ([r0; r1], []) /\
+    (r0 + r1)%C <> RtoC 0 /\ r0 <> r1 /\
+    forall a' c' : C, a' <> RtoC 0 ->
+      ~ ((a' * r0 * r0 + RtoC 0 * r0 + c')%C = RtoC 0 /\ (a' * r1 * r1 + RtoC 0 * r1 + c')%C = RtoC 0).
+Proof. exact quadratic_componentwise_simultaneous_refuted_1024. Qed.
